@@ -163,6 +163,10 @@ func (t *connectTransaction) WillMsg(snWillMsg *snPkts1.WillMsg) error {
 }
 
 func (t *connectTransaction) Connack(mqConnack *mqPkts.ConnackPacket) error {
+	if t.state != awaitingConnack {
+		t.log.Debug("Unexpected packet in %d: %v", t.state, mqConnack)
+		return nil
+	}
 	if mqConnack.ReturnCode != mqPkts.Accepted {
 		// We misuse RC_CONGESTION here because MQTT-SN spec v. 1.2 does not define
 		// any suitable return code.
